@@ -306,8 +306,14 @@ func (u *UnitsDefinition) handleParseMultiplier(
 				Message: fmt.Sprintf("Failed to parse number as int: %s", result),
 			}
 		}
-		floatNumber += float64(i * multiplier)
+		floatNumber += float64(i) * float64(multiplier)
 		if !isFloat {
+			// Both operands are non-negative here (the count is made of digits only).
+			if multiplier != 0 && i > math.MaxInt64/multiplier || i*multiplier > math.MaxInt64-intNumber {
+				return intNumber, floatNumber, isFloat, BadArgumentError{
+					Message: fmt.Sprintf("Number does not fit into a 64 bit integer: %s times %d", result, multiplier),
+				}
+			}
 			intNumber += i * multiplier
 		}
 	}
@@ -330,7 +336,7 @@ func (u *UnitsDefinition) updateReCache() {
 		}
 	}
 	parts = append(parts, fmt.Sprintf(
-		"(?:|(?P<g1>[0-9]+(|.[0-9]+))\\s*(|%s|%s|%s|%s))",
+		"(?:|(?P<g1>[0-9]+(|\\.[0-9]+))\\s*(|%s|%s|%s|%s))",
 		regexp.QuoteMeta(u.BaseUnitValue.NameShortSingular()),
 		regexp.QuoteMeta(u.BaseUnitValue.NameShortPlural()),
 		regexp.QuoteMeta(u.BaseUnitValue.NameLongSingular()),
